@@ -469,7 +469,7 @@ def text_layer_check(ctx, results):
     seen = set()
     for r in results:
         b = r.case["body"]
-        if b not in seen and text_domain(b):
+        if b not in seen and text_domain(b) and not r.case.get("notext"):
             seen.add(b)
             bodies.append(b)
     if not bodies:
